@@ -138,6 +138,25 @@ def _eval(case):
                                  "FT of delta_%d*%s on %s time axis N=%d differs from the "
                                  "direct Fourier sum by %g (dt=%g)"
                                  % (k, phase, case["atype"], N, err, dt), {"k": k}))
+            # the data may get into the object in other ways than through the constructor:
+            # a function built from REAL samples and made complex afterwards (apply_to_data,
+            # assignment) is the same function of the same axis
+            for route in ("apply_to_data", "assign"):
+                f2 = qr.DFunction(ax, numpy.ones(N, dtype=float))
+                try:
+                    if route == "apply_to_data":
+                        f2.apply_to_data(lambda d, _y=y: d * _y)
+                    else:
+                        f2.data = y.copy()
+                    F2 = f2.get_Fourier_transform()
+                    ok2, err2 = approx(F2.data, F.data, TOL, scale=dt)
+                except Exception as e:
+                    ok2, err2 = False, float("inf")
+                if not ok2:
+                    viol.append(("ft-depends-on-how-the-data-were-set/%s/%s" % (route, tag),
+                                 "FT of delta_%d*%s set by %s on a function constructed from real "
+                                 "samples differs from the FT of the same function constructed "
+                                 "directly by %g (N=%d)" % (k, phase, route, err2, N), {"k": k}))
             # the rarely used window option: FT(f, window=W) is the FT of f*W (W with
             # pairwise different values != 1, so every index is told apart)
             if case["dir"] == "t":
